@@ -47,19 +47,15 @@ def run(ck):
     quick = ck.quick()
     n = 300 if quick else 8000
     progs = []
-    for fam, k in (("random", n), ("dce", n // 2), ("alias", n // 6), ("smoke", 0), ("scopes", n // 3)):
-        try:
-            ps = semlib.generate(ck, fam, k)
-        except vlib.Infra:
-            if fam == "scopes":
-                continue
-            raise
+    for fam, k in (("random", n), ("dce", n // 2), ("alias", n // 6), ("smoke", 0), ("shapes", 4000 if quick else 0),
+                   ("modules", n // 6), ("m-closure", 0), ("m-assign", 0), ("m-call", 0)):
+        ps = semlib.generate(ck, fam, k)
         for p in ps:
             p["id"] = len(progs) + 1
             p["family"] = fam
             progs.append(p)
     byid = {p["id"]: p for p in progs}
-    cases = [{"id": p["id"], "src": p["src"], "inputs": p.get("inputs", []), "mods": []} for p in progs]
+    cases = [{"id": p["id"], "src": p["src"], "inputs": p.get("inputs", []), "mods": p.get("mods", [])} for p in progs]
     d = vlib.run_cases(ck, "dump", cases, nproc=8)
     dumps = {}
     for p in progs:
@@ -84,7 +80,7 @@ def run(ck):
         if p["id"] not in dumps:
             continue
         hs = [{"cidx": cidx, "h": v["h"]} for (pid, cidx), v in verdicts.items() if pid == p["id"] and v["ok"]]
-        pcases.append({"id": p["id"], "src": p["src"], "inputs": p.get("inputs", []), "mods": [], "heights": hs})
+        pcases.append({"id": p["id"], "src": p["src"], "inputs": p.get("inputs", []), "mods": p.get("mods", []), "heights": hs})
     pr = vlib.run_cases(ck, "probe", pcases, nproc=8)
     steps = 0
     fam = {}
